@@ -29,6 +29,35 @@ HOST_NAMES = ("fields args record data params key value name id input_id populat
               "tuple int float print type object input open range sum min max abs all any repr hash format exec eval compile globals locals "
               "vars dir getattr setattr isinstance Exception ValueError TypeError e E math random functools itertools pyab_experiment binning "
               "typing copy sys os re json logging logger log warnings debug msg message text source expr term predicate cond group groups").split()
+_FRAG_CACHE = []
+
+
+def generated_fragments():
+    """lines and pieces of the text the implementation's generator emits right now (banner, import lines, signatures, calls): a
+    string literal that SPELLS one of them is still just a string — whatever the library later searches, splits or replaces in its own output"""
+    if _FRAG_CACHE:
+        return _FRAG_CACHE[0]
+    out = []
+    probe = 'def probe_exp { salt: "s" splitters: fa if fc == 1 { return "a" weighted 1 } else { return "c" weighted 1 } }'
+    try:
+        from pyab_experiment.utils.wraper_functions import parse_source
+        from pyab_experiment.codegen.python.python_generator import PythonCodeGen
+        for expose in (False, True):
+            code = PythonCodeGen(parse_source(probe), expose_experiment_variant_function=expose).generate()
+            for line in code.split("\n"):
+                t = line.strip()
+                if len(t) >= 6:
+                    out.append(t)
+                    out.append(line.rstrip())
+                    if len(t) > 30:
+                        out += [t[:len(t) // 2], t[len(t) // 2:]]
+    except Exception:  # noqa
+        pass
+    out = [x for x in dict.fromkeys(out) if "\n" not in x and not ('"' in x and "'" in x)]
+    _FRAG_CACHE.append(out)
+    return out
+
+
 _HOST_CACHE = []
 
 
@@ -72,8 +101,8 @@ CMP_OPS = ["==", "!=", ">", "<", ">=", "<=", "in", "not in"]
 
 STR_ALPHABET = ["a", "b", "Z", "0", "1", "9", " ", "_", "-", ".", "'", '"', "\\", "n", "t", "x", "u", "(", ")", "+",
                 "{", "}", "%", "/", "*", "#", ":", ",", "=", "é", "ß", "中", "\u0301", "😀", "\t", "\x00", "\x7f", "\u00a0",
-                "\u0378", "\u2028"]
-STR_SPECIALS = ["", "02134", "inf", "nan", "1e5", "0x10", "-1", "1.0", "True", "None", "it's", 'say "hi"', "C:\\temp",
+                "\u0378", "\u2028", "\u201c", "\u201d", "\u2018", "\u2019", "\ufeff", "\u200b", "\u00ad", "\U0001d400", "\U00020000", "\uff02", "`", "\u00b4"]
+STR_SPECIALS = ["a\u201d or x == \u201cb", "\u2018q\u2019", "x\ufeffy", "\ufeff", "\U0001d400", "a\U0001f600b", "\uffff", "\U00010000", "", "02134", "inf", "nan", "1e5", "0x10", "-1", "1.0", "True", "None", "it's", 'say "hi"', "C:\\temp",
                 "a\\nb", "\\", "\\\\", "'+str(print('PWNED'))+'", "%s", "{0}", "//c", "/*", "*/", "def", "return",
                 "josé", "jose\u0301", "😀", " ", "\\x41", "\\u0041", "\\N{BULLET}", "'''", '"""', "\\'", "a'b\"c" if False else "a'b"]
 
@@ -138,6 +167,33 @@ def long_string(rng, tails=("",)):
     t = "".join(out)[:n]
     tail = rng.choice(list(tails))
     return t + tail
+
+
+def membership_cases(rng, n):
+    """membership tests against literal tuples of 1..24 members (all scalar literals; with an identifier; with a nested tuple), asked
+    with values of every kind a caller's record can hold — also unhashable ones (a list, a dict, a set, a composite id decoded from
+    JSON): `x in (...)` is an equality scan, it never hashes.  (Reference semantics only: the model has no mutable containers.)"""
+    L = lambda t: lit_str(t, quote='"')
+    cases = []
+    for _ in range(n):
+        k = rng.choice([1, 2, 3, 4, 5, 8, 11, 12, 13, 16, 24])
+        kind = rng.choice(["int", "str", "mixed"])
+        members = []
+        for i in range(k):
+            members.append(("lit", lit_int(i * 3) if kind == "int" or (kind == "mixed" and i % 2) else L("m%d" % i)))
+        shape = rng.choice(["plain", "plain", "ident", "nested"])
+        if shape == "ident":
+            members[rng.randrange(k)] = ("id", "other")
+        elif shape == "nested":
+            members[rng.randrange(k)] = ("tuple", [("lit", lit_int(1)), ("lit", lit_int(2))])
+        op = rng.choice(["in", "not in"])
+        cond = ("if", ("cmp", ("id", "x"), op, ("tuple", members)), ("ret", [(L("T"), "1")]), ("else", ("ret", [(L("F"), "1")])))
+        prog = Program("e", None, ["u"], cond, {"u": "any", "x": "any", "other": "any"})
+        vals = [[1, 2], [], {"a": 1}, {}, {1, 2}, [0], (1, 2), [1, 2], bytearray(b"m0"), 0, "m0", 3, None, 1.5, ["m0"], {"m0"}, (0,)]
+        rng.shuffle(vals)
+        envs = [{"u": "u1", "x": v, "other": rng.choice([7, [1], "m1"])} for v in vals[:8]]
+        cases.append({"prog": prog, "text": render(prog, rng, "plain"), "envs": envs})
+    return cases
 
 
 def wide_program(rng, k=None, name="wide"):
@@ -310,6 +366,7 @@ class GenOpts:
         self.ascii_only = False
         self.weights = "mixed"      # 'int' | 'mixed'
         self.tuples_with_idents = True
+        self.literal_comparisons = True
         self.redundant_parens = 0.15
         self.ident_pool = IDENT_POOL
         self.max_nodes = 40         # budget of conditional nodes per program
@@ -424,9 +481,32 @@ def gen_program(rng, opts=None):
             return ("cmp", other, op, ("id", f))
         return ("cmp", ("id", f), op, other)
 
+    def lit_lit():
+        """a comparison between two literals (no field involved): well typed, or ill typed (it would raise if it were ever evaluated)"""
+        well = rng.random() < 0.6
+        a, b = rng.choice([(lit_int(1), lit_int(2)), (lit_int(3), lit_float("3.0")), (lit_str("a", rng), lit_str("b", rng)), (lit_int(0), lit_int(0))])
+        if well:
+            return ("cmp", ("lit", a), rng.choice(["==", "!=", "<", ">=", ">", "<="]), ("lit", b))
+        return rng.choice([("cmp", ("lit", lit_str("beta", rng)), "<", ("lit", lit_int(3))), ("cmp", ("lit", lit_int(7)), "in", ("lit", lit_int(7))),
+                           ("cmp", ("lit", lit_int(1)), "in", ("lit", lit_str("abc", rng))), ("cmp", ("lit", lit_float("1.5")), ">=", ("lit", lit_str("1.5", rng))),
+                           ("cmp", ("lit", lit_int(1)), "not in", ("lit", lit_float("2.5")))])
+
+    def guarded_ill():
+        """an ill-typed literal comparison where Python never evaluates it: behind a constant that short-circuits"""
+        ill = None
+        while ill is None or ill[1][1].kind == ill[3][1].kind and ill[2] in ("==", "!=", "<", ">=", ">", "<="):
+            ill = lit_lit()
+        if rng.random() < 0.5:
+            return ("and", ("cmp", ("lit", lit_int(1)), "==", ("lit", lit_int(2))), ill)
+        return ("or", ("cmp", ("lit", lit_int(0)), "==", ("lit", lit_int(0))), ill)
+
     def gen_pred(depth):
         r = rng.random()
-        if depth <= 0 or r < 0.45:
+        if opts.literal_comparisons and rng.random() < 0.08:
+            p = guarded_ill() if rng.random() < 0.5 else lit_lit()
+            if p[0] == "cmp" and p[1][1].kind != p[3][1].kind and not (p[1][1].kind in ("int", "float") and p[3][1].kind in ("int", "float")):
+                p = guarded_ill()      # an unguarded ill-typed comparison is a TypeError by the reference semantics too; keep those rare
+        elif depth <= 0 or r < 0.45:
             p = gen_cmp()
         elif r < 0.65:
             p = ("and", gen_pred(depth - 1), gen_pred(depth - 1))
@@ -785,7 +865,7 @@ def weight_fraction(wtext):
 
 def spec_indices(weights, h):
     """indices the interval rule allows for position h (exact rationals); more than one only
-    when h is within one grid point of a boundary and the weights are not all integers"""
+    when h is within one grid point of a boundary and the weights are not all integers below 2^53 in total"""
     ws = [weight_fraction(w) if isinstance(w, str) else Fraction(w) for w in weights]
     total = sum(ws)
     if total <= 0:
@@ -804,7 +884,8 @@ def spec_indices(weights, h):
     if exact is None:
         exact = len(ws) - 1
     allowed.add(exact)
-    all_int = all(w.denominator == 1 for w in ws)
+    # "exact in binary64": integer weights whose running totals stay below 2^53 (then every sum and product the code forms is exact)
+    all_int = all(w.denominator == 1 for w in ws) and total < 2 ** 53
     if not all_int:
         # within one grid point of a boundary: the neighbouring non-empty group is tolerated
         for i, b in enumerate(bounds[:-1]):
